@@ -111,6 +111,16 @@ def _dup_tree(r, pl):
     return {("a",): x, ("b",): r.randbytes(r.choice([5, pl + 3])), ("c", "a"): bytes(bytearray(x))}
 
 
+UTF8_V1_LABEL = "recorded v1 `pieces` string valid UTF-8 with a multi-byte character (two pieces over two files)"
+UTF8_V2_LABEL = "recorded pieces root of a file not longer than a piece valid UTF-8 with a multi-byte character"
+
+
+def _named_tree(shape):
+    """the files of rc.NAME_SHAPES[shape] with contents of a few sizes around the piece length"""
+    comps = rc.NAME_SHAPES[shape][1]
+    return lambda r, pl: {c: r.randbytes(r.choice([pl + 9, 100, 7, 2 * pl + 1][:2 if len(comps) > 6 else 4])) for c in comps}
+
+
 def _aimed_payloads(tier):
     """(class, payload name or None, tree maker, metafile kinds): the directory whose only file is named like it (and the
        nested variant) for every v2-view kind, multi-file payloads for the metafiles of another encoder whose ordinary
@@ -124,7 +134,23 @@ def _aimed_payloads(tier):
                                              ("d", "run"): r.randbytes(2 * pl)}, rc.ATTR_KINDS + ["v1-align"]),
     ]
     out.append((DUP_LABEL, None, _dup_tree, rc.V2_KINDS + ["v1", "ref-v1"]))
+    # names that are not stable under Unicode normalisation, created on disk exactly so (the model takes names as bytes)
+    out.append((rc.NAME_LABELS["nfd-file-and-directory"], "p", _named_tree("nfd-file-and-directory"), same))
+    # recorded hash strings that are valid UTF-8 with a multi-byte character (the real pyben hands them over as str; the model of
+    # the decoder keeps bytes): the whole v1 `pieces` string; the pieces root of a file not longer than a piece
+    rec = rc.load_utf8_recipes()
+    if rec["sha1-block"] and rec["sha1-block32"] and rec["sha1-short"]:
+        out.append((UTF8_V1_LABEL, "p", lambda r, pl: rc.spec_tree(rc.split_spec(
+            [rec["sha1-block" if pl == rc.B else "sha1-block32"][0], rec["sha1-short"][0]], [pl - 3], ["a", "b"])), ["v1", "ref-v1", "ref-v1-attr"]))
+    if rec["sha256-short"]:
+        out.append((UTF8_V2_LABEL, "p", lambda r, pl: {("a",): r.randbytes(pl + 9), ("m.bin",): rc.recipe_bytes(rec["sha256-short"][0]),
+                                                       ("z",): r.randbytes(100)}, rc.V2_KINDS))
     if tier == "thorough":
+        out += [(rc.NAME_LABELS[sh], rc.NAME_SHAPES[sh][0], _named_tree(sh), same)
+                for sh in ("equivalent-names-side-by-side", "nfd-payload-directory", "glob-metacharacters")]
+        if rec["sha256-pair"] and rec["sha256-block"]:
+            out.append((UTF8_V2_LABEL, "p", lambda r, pl: {("k",): rc.recipe_bytes(rec["sha256-block"][0]),
+                                                           ("two",): b"".join(rc.recipe_bytes(x) for x in rec["sha256-pair"][0])}, rc.V2_KINDS))
         out += [
             (DUP_LABEL, None, _dup_tree, rc.V2_KINDS + ["v1-align", "ref-v1-attr"]),
             (rc.SAME_NAME_LABEL, "data", lambda r, pl: {("data",): r.randbytes(r.choice([1, pl, 3 * pl + 5]))}, same),
